@@ -4,11 +4,13 @@ package props
 
 import (
 	"bytes"
+	"errors"
 	"fmt"
 	"io"
 	"reflect"
 	"sort"
 	"strings"
+	"testing/iotest"
 
 	"github.com/gregoryv/mq"
 
@@ -158,6 +160,25 @@ func init() {
 		func() error {
 			_, err := mq.ReadPacket(bytes.NewReader([]byte{0x20, 0x03, 0x00, 0x00, 0x80}))
 			return err // a genuine decode error of the library
+		},
+		// what ReadPacket itself returned when an upstream connection failed or ended
+		// (a bridge wraps the error of its inbound side into the one it reports on
+		// the outbound side): before a frame, inside the header, inside the body
+		func() error {
+			_, err := mq.ReadPacket(iotest.ErrReader(errors.New("upstream: connection reset")))
+			return err
+		},
+		func() error {
+			_, err := mq.ReadPacket(io.MultiReader(bytes.NewReader([]byte{0x30, 0x85}), iotest.ErrReader(errors.New("upstream: broken pipe"))))
+			return err
+		},
+		func() error {
+			_, err := mq.ReadPacket(io.MultiReader(bytes.NewReader([]byte{0x30, 0x05, 0x00, 0x01}), iotest.ErrReader(errors.New("upstream: timed out"))))
+			return err
+		},
+		func() error {
+			_, err := mq.ReadPacket(bytes.NewReader([]byte{0x30, 0x05, 0x00}))
+			return err
 		})
 	// fill the cache eagerly so that workers never write it concurrently
 	for s := 0; s <= 16; s++ {
